@@ -236,3 +236,59 @@ def resolver(vis_a: int, vis_b: int, defvis: int, use_only: bool, only_k: int, r
         ok = got is exp
     tock("resolver")
     return ok
+
+
+# ------------------------------------------------------------------------------------ EXTENDS chains across files x index order
+IO_BASE = ("module io_base\n  type, abstract :: base_t\n    integer :: gc\n  contains\n    procedure(run_i), deferred :: run\n    procedure :: base_proc\n  end type base_t\n"
+           "  abstract interface\n    subroutine run_i(self)\n      import base_t\n      class(base_t) :: self\n    end subroutine run_i\n  end interface\n"
+           "contains\n  subroutine base_proc(self)\n    class(base_t) :: self\n  end subroutine base_proc\nend module io_base\n")
+IO_MID = "module io_mid\n  use io_base\n  type, abstract, extends(base_t) :: mid_t\n    integer :: mc\n  end type mid_t\nend module io_mid\n"
+IO_LEAF = "module io_leaf\n  use io_mid\n  type, extends(mid_t) :: leaf_t\n    integer :: lc\n  end type leaf_t\nend module io_leaf\n"
+IO_USER = ("subroutine io_user()\n  use io_leaf\n  type(leaf_t) :: obj\n  obj%gc = 1\n  obj%mc = 2\n  obj%lc = 3\n  call obj%base_proc()\n  obj%\nend subroutine io_user\n")
+IO_FILES = {"a_base.f90": IO_BASE, "m_mid.f90": IO_MID, "z_leaf.f90": IO_LEAF, "u_user.f90": IO_USER}
+
+
+def check_inherit_order(order, how: int):
+    import itertools
+
+    names = list(IO_FILES)
+    perm = list(itertools.permutations(names))[order]
+    files = {f"{R}/{n}": IO_FILES[n] for n in perm}
+    if how == 0:
+        srv = ws.fresh_init(SRV, files, list(files))
+    else:
+        srv = ws.reset(SRV, files)  # opened one by one in this order
+    up = f"{R}/u_user.f90"
+    for line, col, target, tline in ((3, 6, "a_base.f90", 2), (4, 6, "m_mid.f90", 3), (5, 6, "z_leaf.f90", 3), (6, 13, "a_base.f90", 5)):
+        r = ws.request(srv, "textDocument/definition", up, line, col)
+        got = None if r[0] != "resp" or r[1] is None else (r[1]["uri"].split("/")[-1], r[1]["range"]["start"]["line"])
+        if got != (target, tline):
+            return f"order {perm} ({'workspace_init' if how == 0 else 'didOpen'}): definition at u_user.f90:{line}:{col} -> {got}, expected {(target, tline)}"
+    r = ws.request(srv, "textDocument/completion", up, 7, 6)
+    labels = sorted(i["label"].lower() for i in (r[1] or [])) if r[0] == "resp" else r
+    if labels != ["base_proc", "gc", "lc", "mc", "run"]:
+        return f"order {perm} ({'workspace_init' if how == 0 else 'didOpen'}): completion after obj% offers {labels}"
+    # the concrete leaf does not implement the deferred binding of its grandparent: reported whatever the order.
+    # Diagnostics are what a client holds after the last file was indexed: re-published on request by a save
+    srv.handle({"jsonrpc": "2.0", "method": "textDocument/didSave", "params": {"textDocument": {"uri": "file://" + f"{R}/z_leaf.f90"}}})
+    d = [x["message"] for x in ws.diagnostics(srv, f"{R}/z_leaf.f90")]
+    if not any('Deferred procedure "run" not implemented' in m for m in d):
+        return f"order {perm} ({'workspace_init' if how == 0 else 'didOpen'}): diagnostics of z_leaf.f90 lack the unimplemented deferred binding: {d}"
+    return None
+
+
+def inherit_orders(order: int, how: int) -> bool:
+    """a three-level EXTENDS chain spread over three files plus a user, indexed in all 24 file orders by the real
+    workspace_init (how 0) or opened one by one (how 1): components and bindings of every level resolve through
+    obj%, completion after obj% offers exactly all of them, and the leaf's unimplemented deferred binding is reported
+    pre: 0 <= order < 24 and 0 <= how <= 1 and order % NPART == PART
+    post: _
+    """
+    tick("inherit_orders")
+    order, how = conc(order, 0, 23), conc(how, 0, 1)
+    with NoTracing():
+        msg = check_inherit_order(order, how)
+        if msg:
+            FAIL.append(msg)
+    tock("inherit_orders")
+    return msg is None
